@@ -33,6 +33,7 @@ SIZES = {'quick': dict(ts=36000, staged=16, bad=320), 'thorough': dict(ts=120000
 REQUIRED = {
     tier: {
         'timestamps-checked': 10000,
+        'same-text-in-another-zone': 500,
         'zones-covered': 400,
         'timestamps-in-lmt-or-older-offset-era': 2000,
         'timestamps-near-dst-transition': 1000,
@@ -161,6 +162,23 @@ def check_timestamps(ctx, rng, n):
                     rec.hit('zoneinfo-database-differs (not decisive)')
             except Exception:  # pylint: disable=broad-except
                 rec.hit('zoneinfo-has-no-such-zone')
+        if i % 10 == 0:
+            # the same text declared in other zones straight afterwards (one process, as a
+            # script looping over sites would do): each zone must get its own instant
+            for other in rng.sample(zones, 2):
+                tz2 = pytz.timezone(other)
+                c2 = candidate_epochs(naive, tz2)
+                if not c2:
+                    continue
+                try:
+                    e2 = list(load_mod.generate_timestamped_rows([[text, '1.5']], tz2))[0][0]
+                except Exception:  # pylint: disable=broad-except
+                    continue
+                rec.hit('same-text-in-another-zone')
+                if e2 not in c2:
+                    rec.violation('stored-instant-does-not-render-as-the-original-text',
+                                  {'zone': other, 'text': text, 'epoch': e2, 'admissible_epochs': c2, 'previous_zone': name}, {'kind': 'timestamp', 'zone': other, 'text': text}, 'timestamp')
+                    break
         if len(rec.samples) < 3 and off_then != off_now:
             rec.sample({'zone': name, 'text': text, 'epoch': epoch, 'offset_then_s': off_then.total_seconds(), 'offset_now_s': off_now.total_seconds()})
     rec.hit('zones-covered', len(seen_zones))
